@@ -1,4 +1,240 @@
-import PgModel.SymTyped
+/-
+  C03 — schema invariant of typed `pg.List`, `pg.Dict`, `pg.Object` (model: PgModel/SymTyped.lean on
+  top of the C04 value-spec model; lemmas: PgProofs/SymTyped.lean).  The model mirrors /repo with
+  fixes/C03-F08.patch, C03-F60.patch and C03-F61.patch applied.
+
+  The theorems are parametric in the element / field specs and assume only that `apply` is
+  idempotent on them (`Idem`, the C04 theorem; `idem_of_frag` discharges it for the C04 fragment).
+-/
+import PgProofs.SymTyped
 namespace Pg.C03
-theorem C03_placeholder : (1 : Nat) = 1 := rfl
+open Pg.Typing
+
+def envT : Env := ⟨fun a b => a == b, fun _ _ => true⟩
+def F0 : Flags := ⟨false, .missing, false⟩
+
+/-! ## Typed list -/
+
+/-- Construction yields a conforming list (`pg.List(items, value_spec=List(elem, mn, mx))`). -/
+theorem C03_list_construct (env : Env) (elem : Spec) (mn : Nat) (mx : Option Nat) (items : List Val)
+    (l : TList) (hI : Idem env false elem) (h : construct env elem mn mx items = .ok l) : Conforms env l := by
+  unfold construct at h
+  cases ha : apply env (.list elem mn mx ⟨false, .missing, false⟩) false (.list items) with
+  | error e => simp [ha] at h
+  | ok r =>
+    simp only [ha] at h
+    cases r with
+    | list ys =>
+      simp only [Except.ok.injEq] at h
+      subst h
+      simp only [apply, gate, Val.isMissing, Val.isNone, Bool.false_eq_true, if_false, bind, Except.bind,
+        typeCheck, instOf, Val.ty, Ty.sub, List.any_cons, List.any_nil, Bool.or_false, beq_self_eq_true, if_true] at ha
+      cases hm : items.mapM (fun x => apply env elem false x) with
+      | error e => simp [hm] at ha
+      | ok zs =>
+        simp only [hm] at ha
+        cases hsz : sizeOk zs.length mn mx <;> simp [hsz] at ha
+        subst ha
+        refine ⟨?_, hsz⟩
+        intro x hx
+        have hmi := mapM_idem (fun x => apply env elem false x) items zs (fun a _ b hab => hI a b hab) hm
+        -- every member of a list that `mapM` maps to itself is a fixed point
+        clear hm hsz
+        induction zs with
+        | nil => cases hx
+        | cons z zs ih =>
+          rw [List.mapM_cons] at hmi
+          cases hz : apply env elem false z with
+          | error e => simp [hz, bind, Except.bind] at hmi
+          | ok z' =>
+            cases hzs : zs.mapM (fun x => apply env elem false x) with
+            | error e => simp [hz, hzs, bind, Except.bind] at hmi
+            | ok zs' =>
+              simp [hz, hzs, bind, Except.bind, pure, Except.pure] at hmi
+              obtain ⟨h1, h2⟩ := hmi
+              subst h1; subst h2
+              simp only [List.mem_cons] at hx
+              rcases hx with hx | hx
+              · subst hx; exact hz
+              · exact ih hx hzs
+    | _ => simp at h
+
+/-- EVERY modelled list mutator preserves the invariant, whether the call succeeds or fails
+(a failed batch — slice assignment, extend, `+=`, `*=`, rebind — ends in the state after its
+successful prefix, which conforms as well).  15 write paths, any element spec with idempotent
+`apply`, every list, every argument. -/
+theorem C03_list_preserve' (env : Env) (l : TList) (op : ListOp) (hI : Idem env false l.elem)
+    (hc : Conforms env l) :
+    Conforms env (listStep env l op).1 ∧ (listStep env l op).1.elem = l.elem := by
+  cases op with
+  | append v =>
+    simp only [listStep]
+    split
+    · exact ⟨hc, rfl⟩
+    · exact listPrim_preserves env l hI _ _ v hc
+  | insert i v =>
+    simp only [listStep]
+    split
+    · exact ⟨hc, rfl⟩
+    · exact listPrim_preserves env l hI _ _ v hc
+  | setitem i v =>
+    simp only [listStep]
+    split
+    · exact ⟨hc, rfl⟩
+    · exact listPrim_preserves env l hI _ _ v hc
+  | setslice start stop step vs =>
+    simp only [listStep]
+    cases hm : vs.mapM (formalize env l) with
+    | error e => exact ⟨hc, rfl⟩
+    | ok reps =>
+      simp only []
+      split
+      · exact primLoop_preserves env _ l _ _ hI hc
+      · split
+        · exact ⟨hc, rfl⟩
+        · split
+          · exact primLoop_preserves env _ l _ _ hI hc
+          · exact primLoop_preserves env _ l _ _ hI hc
+  | delitem i =>
+    simp only [listStep]
+    cases hn : normIndex l.items.length i with
+    | none => exact ⟨hc, rfl⟩
+    | some k =>
+      simp only []
+      cases hb : belowMin l 1
+      · exact ⟨erase_conforms env l k (normIndex_lt _ _ _ hn) hc hb, rfl⟩
+      · exact ⟨hc, rfl⟩
+  | pop i =>
+    simp only [listStep]
+    cases hn : normIndex l.items.length i with
+    | none => exact ⟨hc, rfl⟩
+    | some k =>
+      simp only []
+      cases hb : belowMin l 1
+      · exact ⟨erase_conforms env l k (normIndex_lt _ _ _ hn) hc hb, rfl⟩
+      · exact ⟨hc, rfl⟩
+  | remove v =>
+    simp only [listStep]
+    cases hn : findEq v l.items with
+    | none => exact ⟨hc, rfl⟩
+    | some k =>
+      simp only []
+      cases hb : belowMin l 1
+      · exact ⟨erase_conforms env l k (findEq_lt _ _ _ hn) hc hb, rfl⟩
+      · exact ⟨hc, rfl⟩
+  | delslice start stop step =>
+    simp only [listStep]
+    split
+    · exact ⟨hc, rfl⟩
+    · rename_i hb
+      obtain ⟨h1, h2, h3⟩ := eraseIdxs_facts l.items
+        (rangeIdx (sliceAdjust l.items.length start stop step).1 step
+          (rangeLen (sliceAdjust l.items.length start stop step).1 (sliceAdjust l.items.length start stop step).2 step))
+      refine ⟨⟨fun x hx => hc.1 x (h1 x hx), ?_⟩, rfl⟩
+      simp only [belowMin, decide_eq_true_eq, Nat.not_lt] at hb
+      simp only []
+      exact sizeOk_shrink _ _ _ _ hc.2 (by omega) h2
+  | extend vs =>
+    simp only [listStep]
+    split
+    · exact ⟨hc, rfl⟩
+    · exact extendLoop_preserves env vs l hI hc
+  | imul n =>
+    simp only [listStep]
+    split
+    · split
+      · exact ⟨hc, rfl⟩
+      · rename_i hmn
+        refine ⟨⟨(by intro x hx; cases hx), ?_⟩, rfl⟩
+        have := hc.2
+        unfold sizeOk at this ⊢
+        cases l.mx <;> simp at this ⊢ <;> omega
+    · split
+      · exact ⟨hc, rfl⟩
+      · exact extendLoop_preserves env _ l hI hc
+  | clear =>
+    simp only [listStep]
+    split
+    · exact ⟨hc, rfl⟩
+    · rename_i hmn
+      refine ⟨⟨(by intro x hx; cases hx), ?_⟩, rfl⟩
+      have := hc.2
+      unfold sizeOk at this ⊢
+      cases l.mx <;> simp at this ⊢ <;> omega
+  | sort =>
+    simp only [listStep]
+    split
+    · obtain ⟨h1, h2⟩ := sortVals_facts l.items
+      exact ⟨⟨fun x hx => hc.1 x ((h1 x).1 hx), by simp only [h2]; exact hc.2⟩, rfl⟩
+    · exact ⟨hc, rfl⟩
+  | reverse =>
+    simp only [listStep]
+    exact ⟨⟨fun x hx => hc.1 x (List.mem_reverse.1 hx), by simp only [List.length_reverse]; exact hc.2⟩, by first | rfl | trivial⟩
+  | rebind kvs =>
+    simp only [listStep]
+    exact primAt_preserves env _ l hI hc
+
+theorem C03_list_preserve (env : Env) (l : TList) (op : ListOp) (hI : Idem env false l.elem)
+    (hc : Conforms env l) : Conforms env (listStep env l op).1 :=
+  (C03_list_preserve' env l op hI hc).1
+
+/-- A rejected single-value list write (append / insert / item assignment / item deletion / pop /
+remove / clear / sort) raises and stores nothing: the list is exactly what it was. -/
+def ListOp.single : ListOp → Bool
+  | .append _ | .insert _ _ | .setitem _ _ | .delitem _ | .delslice _ _ _ | .pop _ | .remove _ | .clear | .sort
+  | .reverse => true
+  | _ => false
+
+theorem C03_list_reject_unchanged (env : Env) (l : TList) (op : ListOp) (e : E) (hs : op.single = true)
+    (h : (listStep env l op).2 = some e) : (listStep env l op).1 = l := by
+  cases op <;> simp only [ListOp.single] at hs <;> simp only [listStep] at h ⊢
+  all_goals (try cases hs)
+  · split
+    · rfl
+    · rename_i hm; simp only [hm] at h; exact listPrim_reject env l _ _ _ e h
+  · split
+    · rfl
+    · rename_i hm; simp only [hm] at h; exact listPrim_reject env l _ _ _ e h
+  · split
+    · rfl
+    · rename_i k hn; simp only [hn] at h; exact listPrim_reject env l _ _ _ e h
+  · cases hn : normIndex l.items.length _ with
+    | none => rfl
+    | some k => simp only [hn] at h ⊢; cases hb : belowMin l 1 <;> simp [hb] at h ⊢
+  · split
+    · rfl
+    · rename_i hb; simp [hb] at h
+  · cases hn : normIndex l.items.length _ with
+    | none => rfl
+    | some k => simp only [hn] at h ⊢; cases hb : belowMin l 1 <;> simp [hb] at h ⊢
+  · cases hn : findEq _ l.items with
+    | none => rfl
+    | some k => simp only [hn] at h ⊢; cases hb : belowMin l 1 <;> simp [hb] at h ⊢
+  · split
+    · rfl
+    · rename_i hb; simp [hb] at h
+  · split
+    · rename_i hb; simp [hb] at h
+    · rfl
+  · simp at h
+
+/-- The invariant holds along every history of list mutations. -/
+def runList (env : Env) (l : TList) : List ListOp → TList
+  | [] => l
+  | op :: ops => runList env (listStep env l op).1 ops
+
+/-- … for all operation lists (induction over the history). -/
+theorem C03_list_history (env : Env) (ops : List ListOp) : ∀ (l : TList), Idem env false l.elem →
+    Conforms env l → Conforms env (runList env l ops) := by
+  induction ops with
+  | nil => intro l _ hc; exact hc
+  | cons op ops ih =>
+    intro l hI hc
+    obtain ⟨h1, h2⟩ := C03_list_preserve' env l op hI hc
+    exact ih _ (by rw [h2]; exact hI) h1
+
+/-- F08 is repaired: `del l[0]` on a list of length `min_size` is refused. -/
+example : (listStep envT ⟨.int none none F0, 2, none, [.int 1, .int 2]⟩ (.delitem 0)).2 = some .value := by rfl
+example : (listStep envT ⟨.int none none F0, 0, some 2, [.int 1, .int 2]⟩ (.rebind [(0, true, .int 9)])).2 = some .value := by rfl
+
 end Pg.C03
